@@ -139,6 +139,10 @@ def check_bytes(case):
     import bits.utils as U
 
     d, k = case["d"], case["k"]
+    edge = bool(case.get("edge"))
+    if edge:
+        # a key whose SEC1 bytes start (after the prefix) or end with an ASCII whitespace byte or NUL
+        d = gen.edge_scalar(d, ec.mul, ec.G, ec.sec1_encode)
     flag = case["flag"]
     preimage = case["preimage"]
     msg = bx(case["msg"])
@@ -180,6 +184,10 @@ def check_bytes(case):
             pk = pk[:-1]
         elif m["how"] == "ext":
             pk = pk + b"\x00"
+        elif m["how"] == "ext-ws":  # what reading a key from a text file leaves behind
+            pk = pk + (b"\n", b"\r\n", b" ", b"\t")[m["pos"] % 4]
+        elif m["how"] == "pre-ws":
+            pk = (b" ", b"\n")[m["pos"] % 2] + pk
         else:  # the other form's length with this form's prefix
             pt = ec.pub(d)
             pk = bytearray(bytes([pk[0]]) + pt[0].to_bytes(32, "big") + (pt[1].to_bytes(32, "big") if len(pk) == 33 else b""))
@@ -238,6 +246,8 @@ def check_bytes(case):
     want = pt is not None and vals is not None and ec.ecdsa_verify(pt, z2, vals[0], vals[1])
     cls = ["mut:" + label, "nt:expect-accept" if (want and kind != "none") else ("expect-accept" if want else "nt:expect-reject")]
     cls.append("preimage" if preimage else "plain")
+    if edge:
+        cls.append("nt:key-bytes-with-whitespace-or-nul-at-an-end")
     if flag not in FLAGS:
         cls.append("nt:nonstandard-sighash-byte-00" if flag == 0 else "nt:nonstandard-sighash-byte")
     if case.get("prime") and kind.startswith("pk-"):
@@ -361,7 +371,7 @@ def bytes_cases(draw):
     if kind == "flag":
         m["to"] = draw(st.sampled_from(FLAGS + [0, 4, 0x80, 0xFF]))
     if kind == "pk-len":
-        m["how"] = draw(st.sampled_from(["trunc", "ext", "otherform"]))
+        m["how"] = draw(st.sampled_from(["trunc", "ext", "otherform", "ext-ws", "ext-ws", "pre-ws"]))
     if kind == "pk-other":
         m["d2"] = draw(gen.scalars_valid())
     if kind == "pk-byte" and draw(st.booleans()):
@@ -377,6 +387,7 @@ def bytes_cases(draw):
         "comp": draw(st.booleans()),
         "mut": m,
         "prime": draw(st.booleans()) or kind == "pk-prefix",
+        "edge": draw(st.sampled_from([False, False, False, True])),
     }
 
 
@@ -415,7 +426,8 @@ def targets(tier):
         Target("verify-secp", check_verify, strategy=lambda tier: verify_cases(), budget={"quick": 640, "thorough": 10000},
                required=["mut:s->n-s", "mut:z+n", "mut:u1G+u2P=infinity", "mut:other-key", "mut:aliased-key", "nt:expect-accept", "nt:expect-reject", "mut:flip-px"]),
         Target("sigverify-bytes", check_bytes, strategy=lambda tier: bytes_cases(), budget={"quick": 800, "thorough": 10000},
-               required=["mut:der-struct", "mut:der-value", "mut:pk-hybrid", "mut:pk-prefix", "mut:pk-len-otherform", "mut:flag", "mut:msg", "mut:u1G+u2P=infinity", "mut:forged-under-x0-key", "nt:expect-accept", "nt:expect-reject", "nt:nonstandard-sighash-byte-00"]),
+               required=["mut:der-struct", "mut:der-value", "mut:pk-hybrid", "mut:pk-prefix", "mut:pk-len-otherform", "mut:flag", "mut:msg", "mut:u1G+u2P=infinity", "mut:forged-under-x0-key", "nt:expect-accept", "nt:expect-reject", "nt:nonstandard-sighash-byte-00",
+                         "nt:key-bytes-with-whitespace-or-nul-at-an-end", "mut:pk-len-ext-ws"]),
         Target("low-s", check_lows, strategy=lambda tier: lows_cases(), budget={"quick": 3000, "thorough": 40000},
                required=["nt:complement-short", "nt:complement-short-topbit", "nt:s-at-half", "nt:verified"]),
         Target("small-curve", check_small, enumerate_=enum_small, exhaustive=True),
